@@ -120,6 +120,8 @@ func zzEffectRun(args []string, dir string, stdinDefault bool) (string, bool) {
 // option left out gives the same output as running it after the option has
 // been given explicitly with the default value shown in the help text.
 func H_C19_effect() {
+	// both runs get --seed=7: draws are a function of the seed and of the calls made
+	sxOpt("seeded-rand", true)
 	all := zzEffectPairs()
 	sxAssert(len(all) > 50 || sxParam("cmdidx", -1) >= 0, "the commands register their options")
 	sxObserve("npairs", len(all))
